@@ -230,7 +230,9 @@ fn main() {
                     if live.vec.as_ref().is_some_and(|r| r.as_ref().is_ok_and(|m| !m.is_empty())) { v.world.branches.push("vec-hits-compared".into()); }
                     // the snapshot's vector query exists only when the index had a known dimension then
                     let mut s2 = s.clone();
-                    if s2.vec.is_none() || live.vec.is_none() { s2.vec = live.vec.clone(); }
+                    // (a doctor run that was ASKED to rebuild the vector index empties it: finding of C14 / C21, not the vacuum's)
+                    let rebuilds_vec = matches!(v.op, Op::Doctor { rebuild_vec: true, .. });
+                    if s2.vec.is_none() || live.vec.is_none() || rebuilds_vec { s2.vec = live.vec.clone(); }
                     res = reads_diff(&s2, &live, "before the vacuum", "after it");
                 }
                 if res.is_none() && direct {
@@ -282,7 +284,14 @@ fn main() {
                                         res = Some(("reopened-file-differs-after-vacuum".into(), format!("frame {i}: live handle `{}`, re-opened file `{}`",
                                             la.get(i).cloned().unwrap_or_default(), lb.get(i).cloned().unwrap_or_default())));
                                     } else if let Some(mut m2) = m2 {
-                                        let r2 = reads(&mut m2, dim);
+                                        let mut r2 = reads(&mut m2, dim);
+                                        // a re-loaded sketch track numbers its entries 0..n-1 (known finding of C39): when the live
+                                        // track's frame ids are not exactly that, the sketch pre-filtered queries are not comparable
+                                        let dense = a.sketch.iter().enumerate().all(|(i, id)| *id == i as u64);
+                                        if !dense {
+                                            v.world.branches.push("sketch-ids-not-dense-prefiltered-queries-skipped".into());
+                                            for (i, (_, no_sketch)) in QUERIES.iter().enumerate() { if !*no_sketch { r2.search[i] = live.search[i].clone(); } }
+                                        }
                                         res = reads_diff(&live, &r2, "on the live handle after the vacuum", "on the re-opened file");
                                         if res.is_none() && a.vec_enabled {
                                             let key = |o: &Obs| o.vec.clone().map(|mut x| { x.sort(); x }).unwrap_or_default();
